@@ -360,7 +360,7 @@ func RunWorker(t *testing.T, cfg *WorkerConfig) *WorkerOutput {
 	out.Classes = sortedKeys(out.Stats.Classes)
 	out.NonTrivial = sortedKeys(out.Stats.NonTrivial)
 	out.Shapes = len(out.Stats.Shapes)
-	out.ShapeKeys = hashedKeys(out.Stats.Shapes)
+	out.ShapeKeys = sortedKeys(out.Stats.Shapes)
 	out.WallS = time.Since(startWall).Seconds()
 	return out
 }
